@@ -37,3 +37,15 @@ theories/Properties/C05.vos theories/Properties/C05.vok theories/Properties/C05.
 theories/Check/C05.vo theories/Check/C05.glob theories/Check/C05.v.beautified theories/Check/C05.required_vo: theories/Check/C05.v theories/Base/Str.vo theories/Base/KV.vo theories/Model/Doc.vo theories/Model/Equals.vo theories/Check/Common.vo
 theories/Check/C05.vio: theories/Check/C05.v theories/Base/Str.vio theories/Base/KV.vio theories/Model/Doc.vio theories/Model/Equals.vio theories/Check/Common.vio
 theories/Check/C05.vos theories/Check/C05.vok theories/Check/C05.required_vos: theories/Check/C05.v theories/Base/Str.vos theories/Base/KV.vos theories/Model/Doc.vos theories/Model/Equals.vos theories/Check/Common.vos
+theories/Model/Codec.vo theories/Model/Codec.glob theories/Model/Codec.v.beautified theories/Model/Codec.required_vo: theories/Model/Codec.v theories/Base/Str.vo theories/Base/KV.vo theories/Model/Doc.vo
+theories/Model/Codec.vio: theories/Model/Codec.v theories/Base/Str.vio theories/Base/KV.vio theories/Model/Doc.vio
+theories/Model/Codec.vos theories/Model/Codec.vok theories/Model/Codec.required_vos: theories/Model/Codec.v theories/Base/Str.vos theories/Base/KV.vos theories/Model/Doc.vos
+theories/Proofs/CodecProofs.vo theories/Proofs/CodecProofs.glob theories/Proofs/CodecProofs.v.beautified theories/Proofs/CodecProofs.required_vo: theories/Proofs/CodecProofs.v theories/Base/Str.vo theories/Base/KV.vo theories/Model/Doc.vo theories/Model/Codec.vo
+theories/Proofs/CodecProofs.vio: theories/Proofs/CodecProofs.v theories/Base/Str.vio theories/Base/KV.vio theories/Model/Doc.vio theories/Model/Codec.vio
+theories/Proofs/CodecProofs.vos theories/Proofs/CodecProofs.vok theories/Proofs/CodecProofs.required_vos: theories/Proofs/CodecProofs.v theories/Base/Str.vos theories/Base/KV.vos theories/Model/Doc.vos theories/Model/Codec.vos
+theories/Properties/C01.vo theories/Properties/C01.glob theories/Properties/C01.v.beautified theories/Properties/C01.required_vo: theories/Properties/C01.v theories/Base/Str.vo theories/Base/KV.vo theories/Model/Doc.vo theories/Model/Codec.vo theories/Proofs/CodecProofs.vo
+theories/Properties/C01.vio: theories/Properties/C01.v theories/Base/Str.vio theories/Base/KV.vio theories/Model/Doc.vio theories/Model/Codec.vio theories/Proofs/CodecProofs.vio
+theories/Properties/C01.vos theories/Properties/C01.vok theories/Properties/C01.required_vos: theories/Properties/C01.v theories/Base/Str.vos theories/Base/KV.vos theories/Model/Doc.vos theories/Model/Codec.vos theories/Proofs/CodecProofs.vos
+theories/Check/C01.vo theories/Check/C01.glob theories/Check/C01.v.beautified theories/Check/C01.required_vo: theories/Check/C01.v theories/Base/Str.vo theories/Base/KV.vo theories/Model/Doc.vo theories/Model/Codec.vo theories/Check/Common.vo
+theories/Check/C01.vio: theories/Check/C01.v theories/Base/Str.vio theories/Base/KV.vio theories/Model/Doc.vio theories/Model/Codec.vio theories/Check/Common.vio
+theories/Check/C01.vos theories/Check/C01.vok theories/Check/C01.required_vos: theories/Check/C01.v theories/Base/Str.vos theories/Base/KV.vos theories/Model/Doc.vos theories/Model/Codec.vos theories/Check/Common.vos
